@@ -1777,3 +1777,284 @@ Proof.
       unfold bindM at 1. unfold bindM at 1. rewrite Ps. reflexivity.
   - exists s2. unfold bindM at 1. unfold bindM at 1. rewrite Pe. reflexivity.
 Qed.
+
+(* ===================================================================== lists *)
+(* the concrete chain of pair cells behind a finite list: [cells] are the (car, cdr)
+   addresses of the successive pairs, [e] is the value that ends the chain *)
+Inductive pchain (h : heap) : vcell -> list (N * N) -> vcell -> Prop :=
+| pc_end : forall v c, heap_deref h v = Ok c -> is_pair c = false -> pchain h v [] v
+| pc_cons : forall v a d cells e,
+    heap_deref h v = Ok (VPair a d) -> pchain h (VPtr d) cells e ->
+    pchain h v ((a, d) :: cells) e.
+
+Lemma absv_pair_inv s v p :
+  val_ok s v -> absv s v = ALoc (LPair p) ->
+  v = VPtr p /\ exists a d, heap_deref (hp s) v = Ok (VPair a d) /\
+    a_pair (abs s) p = Some (absv s (VPtr a), absv s (VPtr d)).
+Proof.
+  intros Hv Ha. destruct (deref_pair s v p Ha) as (-> & a & d & Hg).
+  split; [reflexivity|]. exists a, d. split; [exact Hg|]. cbn [abs a_pair]. now rewrite Hg.
+Qed.
+
+Lemma absv_not_pair s v :
+  val_ok s v -> (forall p, absv s v <> ALoc (LPair p)) ->
+  exists c, heap_deref (hp s) v = Ok c /\ is_pair c = false.
+Proof. intros. now apply deref_not_pair. Qed.
+
+(* every finite abstract chain is a chain of cells *)
+Lemma achain_pchain s :
+  values_are_refs s ->
+  forall av xs ae, achain (abs s) av xs ae ->
+  forall v, val_ok s v -> absv s v = av ->
+  exists cells e, pchain (hp s) v cells e /\
+    map (fun ad => absv s (VPtr (fst ad))) cells = xs /\ absv s e = ae /\ val_ok s e.
+Proof.
+  intros W av xs ae Hc. induction Hc as [av Hnp | p x d xs e Hp Hc IH]; intros v Hv Ha.
+  - subst av. destruct (absv_not_pair s v Hv Hnp) as (c & Hc & Hpc).
+    exists [], v. repeat split; auto. econstructor; eauto.
+  - destruct (absv_pair_inv s v p Hv Ha) as (-> & a & dd & Hg & Hp').
+    rewrite Hp in Hp'. injection Hp' as -> ->.
+    pose proof W as (_ & Hpairs & _). cbn [heap_deref] in Hg. destruct (Hpairs _ _ _ Hg) as (Ta & Td).
+    destruct (IH (VPtr dd) Td eq_refl) as (cells & e' & Hpc & Hm & He & Hve).
+    exists ((a, dd) :: cells), e'. repeat split; auto.
+    + econstructor; eauto.
+    + cbn [map fst]. now rewrite Hm.
+Qed.
+
+(* the value reached after k cdrs *)
+Definition tail_at (v : vcell) (cells : list (N * N)) (k : nat) : vcell :=
+  match k with O => v | S j => match nth_error cells j with Some ad => VPtr (snd ad) | None => v end end.
+
+Lemma usub_ok a b s : b <= a -> usub a b s = ROk (a - b) s.
+Proof. intros H. unfold usub. assert (E : (a <? b) = false) by (now apply N.ltb_ge). now rewrite E. Qed.
+
+(* get_list_tail on a finite chain: the k-th tail when k <= length, an error otherwise;
+   fuel proportional to the length of the list suffices, whatever the index *)
+Lemma get_list_tail_loop_spec fuel s lst :
+  forall v cells e, pchain (hp s) v cells e ->
+  forall f i, (length cells + 1 < f)%nat ->
+    if i <=? N.of_nat (length cells)
+    then get_list_tail_loop fuel f lst v i s = ROk (tail_at v cells (N.to_nat i)) s
+    else render_fail (get_list_tail_loop fuel f lst v i s).
+Proof.
+  intros v cells e Hc. induction Hc as [v c Hd Hp | v a d cells e Hd Hc IH]; intros f i Hf.
+  - destruct f as [|f]; [cbn in Hf; lia|]. cbn [length N.of_nat].
+    destruct (i =? 0) eqn:E0.
+    + apply N.eqb_eq in E0. subst i. cbn [get_list_tail_loop N.eqb]. reflexivity.
+    + assert (E1 : (i <=? 0) = false) by (apply N.leb_gt; apply N.eqb_neq in E0; lia). rewrite E1.
+      cbn [get_list_tail_loop]. rewrite E0. apply N.eqb_neq in E0.
+      rewrite (bind_ok _ _ _ _ _ (usub_ok i 1 s ltac:(lia))).
+      unfold bindM at 1. rewrite hderef_eq, Hd. unfold lift.
+      destruct ((negb (is_pair c) && negb (i - 1 =? 0)) || is_nil c) eqn:E2.
+      * apply fail_cell_render_fail.
+      * destruct c; try discriminate Hp; cbn; exact I.
+  - destruct f as [|f]; [cbn in Hf; lia|].
+    destruct (i =? 0) eqn:E0.
+    + apply N.eqb_eq in E0. subst i. cbn [get_list_tail_loop N.eqb N.leb N.compare]. reflexivity.
+    + assert (Hstep : get_list_tail_loop fuel (S f) lst v i s = get_list_tail_loop fuel f lst (VPtr d) (i - 1) s).
+      { cbn [get_list_tail_loop]. rewrite E0. apply N.eqb_neq in E0.
+        rewrite (bind_ok _ _ _ _ _ (usub_ok i 1 s ltac:(lia))).
+        unfold bindM at 1. rewrite hderef_eq, Hd. unfold lift.
+        cbn [is_pair is_nil negb andb orb as_cdr]. reflexivity. }
+      rewrite Hstep. apply N.eqb_neq in E0.
+      specialize (IH f (i - 1)). cbn [length] in Hf.
+      assert (Hf' : (length cells + 1 < f)%nat) by lia. specialize (IH Hf').
+      cbn [length].
+      destruct (i <=? N.of_nat (S (length cells))) eqn:E1.
+      * apply N.leb_le in E1.
+        assert (E2 : (i - 1 <=? N.of_nat (length cells)) = true) by (apply N.leb_le; lia).
+        rewrite E2 in IH. rewrite IH.
+        replace (N.to_nat i) with (S (N.to_nat (i - 1))) by lia.
+        cbn [tail_at]. destruct (N.to_nat (i - 1)) as [|j] eqn:Ej; cbn [nth_error snd tail_at]; [reflexivity|].
+        destruct (nth_error cells j) eqn:En; [reflexivity|].
+        exfalso. apply nth_error_None in En. lia.
+      * apply N.leb_gt in E1.
+        assert (E2 : (i - 1 <=? N.of_nat (length cells)) = false) by (apply N.leb_gt; lia).
+        rewrite E2 in IH. exact IH.
+Qed.
+
+Lemma pchain_cells_ok s v cells e :
+  values_are_refs s -> val_ok s v -> pchain (hp s) v cells e ->
+  Forall (fun ad => target_ok s (fst ad) /\ target_ok s (snd ad)) cells /\ val_ok s e.
+Proof.
+  intros W Hv Hc. induction Hc as [v c Hd Hp | v a d cells e Hd Hc IH].
+  - split; [constructor | exact Hv].
+  - pose proof W as (_ & Hpairs & _).
+    assert (Hg : exists p, heap_get (hp s) p = Ok (VPair a d)).
+    { destruct v; cbn [val_ok] in Hv; try contradiction; cbn [heap_deref] in Hd; try discriminate. eauto. }
+    destruct Hg as (p & Hg). destruct (Hpairs _ _ _ Hg) as (Ta & Td).
+    destruct (IH Td) as (Hf & He). split; [constructor; auto | exact He].
+Qed.
+
+Lemma tail_at_cons v a d cells j :
+  (j <= length cells)%nat -> tail_at v ((a, d) :: cells) (S j) = tail_at (VPtr d) cells j.
+Proof.
+  intros Hj. destruct j as [|j]; cbn [tail_at nth_error snd]; [reflexivity|].
+  destruct (nth_error cells j) eqn:En; [reflexivity|]. apply nth_error_None in En. lia.
+Qed.
+
+Lemma pchain_atail s v cells e :
+  values_are_refs s -> val_ok s v -> pchain (hp s) v cells e ->
+  forall k, (k <= length cells)%nat ->
+  atail (abs s) (absv s v) k (absv s (tail_at v cells k)) /\ val_ok s (tail_at v cells k).
+Proof.
+  intros W Hv Hc. induction Hc as [v c Hd Hp | v a d cells e Hd Hc IH]; intros k Hk.
+  - cbn [length] in Hk. assert (k = O) by lia. subst k. split; [constructor | exact Hv].
+  - destruct k as [|j]; [split; [constructor | exact Hv]|].
+    cbn [length] in Hk. rewrite tail_at_cons by lia.
+    pose proof W as (_ & Hpairs & _).
+    destruct v; cbn [val_ok] in Hv; try contradiction; cbn [heap_deref] in Hd; try discriminate.
+    destruct (Hpairs _ _ _ Hd) as (Ta & Td).
+    destruct (IH Td j ltac:(lia)) as (Hat & Hvt). split; [|exact Hvt].
+    assert (Ea : absv s (VPtr p) = ALoc (LPair p)) by (cbn [absv]; now rewrite Hd).
+    rewrite Ea. econstructor; [|exact Hat]. cbn [abs a_pair]. now rewrite Hd.
+Qed.
+
+Definition is_listy (x : aval) : bool :=
+  match x with AImm VNil | ALoc (LPair _) => true | _ => false end.
+
+Lemma listy_deref s v c :
+  val_ok s v -> heap_deref (hp s) v = Ok c ->
+  negb (is_pair c) && negb (is_nil c) = negb (is_listy (absv s v)).
+Proof.
+  intros Hv Hc. destruct (val_deref s v Hv) as (c' & Hc' & Ha & Hd). rewrite Hc in Hc'. injection Hc' as <-.
+  rewrite Ha. destruct v; cbn [val_ok] in Hv; try contradiction;
+    try (cbn [heap_deref] in Hc; injection Hc as <-; reflexivity).
+  destruct c; cbn [data_cell] in Hd; try contradiction; reflexivity.
+Qed.
+
+Theorem list_tail_refines fuel s v k xs e :
+  values_are_refs s -> val_ok s v -> val_ok s k -> called_with s [v; k] ->
+  achain (abs s) (absv s v) xs e -> (length xs + 1 < fuel)%nat ->
+  match aindex (absv s k) with
+  | Some i =>
+      if (i <=? N.of_nat (length xs)) && is_listy (absv s v) then
+        exists r s', list_tail fuel s = ROk r s' /\
+          atail (abs s) (absv s v) (N.to_nat i) (absv s r) /\ val_ok s r /\
+          hp s' = hp s /\ st s' = st s
+      else render_fail (list_tail fuel s)
+  | None => exists s', list_tail fuel s = RErr E_OTHER [] s'
+  end.
+Proof.
+  intros W Hv Hk H Hch Hfuel. unfold called_with in H. cbn [len length rev app N.of_nat Pos.of_succ_nat] in H.
+  set (s1 := with_sp s (sp s - 1)).
+  set (s2 := with_sp s1 (sp s1 - 1)).
+  set (s3 := with_sp s2 (sp s2 - 1)).
+  pose proof (stack_top_tail _ _ _ _ H) as H1.
+  pose proof (stack_top_tail _ _ _ _ H1) as H2.
+  pose proof (pop_index_spec s1 k _ Hk H1) as Pk. change (absv s1 k) with (absv s k) in Pk. fold s2 in Pk.
+  destruct (val_deref s v Hv) as (c & Hc & _ & _).
+  assert (Hrun : forall i, aindex (absv s k) = Some i -> list_tail fuel s =
+     if negb (is_listy (absv s v)) then fail_cell fuel c s3 else get_list_tail fuel v i s3).
+  { intros i Ei. rewrite Ei in Pk. unfold list_tail. pop_argc_tac H s 2 2 (Some 2). fold s1.
+    rewrite (bind_ok _ _ _ _ _ Pk).
+    rewrite (bind_ok _ _ _ _ _ (pop_raw_top s2 v _ H2)). fold s3.
+    unfold bindM at 1. rewrite hderef_eq. change (hp s3) with (hp s). rewrite Hc. unfold lift.
+    rewrite (listy_deref s v c Hv Hc). destruct (negb (is_listy (absv s v))); reflexivity. }
+  destruct (aindex (absv s k)) as [i|] eqn:Ei.
+  2: { exists s2. unfold list_tail. pop_argc_tac H s 2 2 (Some 2). fold s1. now rewrite (bind_err _ _ _ _ _ _ Pk). }
+  rewrite (Hrun i eq_refl).
+  destruct (is_listy (absv s v)) eqn:El; cbn [negb].
+  2: { rewrite andb_false_r. apply fail_cell_render_fail. }
+  rewrite andb_true_r.
+  destruct (achain_pchain s W _ _ _ Hch v Hv eq_refl) as (cells & e' & Hpc & Hm & He & Hve).
+  assert (Hlen : length cells = length xs) by (rewrite <- Hm; now rewrite map_length).
+  assert (Hpc3 : pchain (hp s3) v cells e') by exact Hpc.
+  pose proof (get_list_tail_loop_spec fuel s3 v v cells e' Hpc3 fuel i ltac:(lia)) as L.
+  rewrite Hlen in L. unfold get_list_tail.
+  destruct (i <=? N.of_nat (length xs)) eqn:Ec; [|exact L].
+  apply N.leb_le in Ec.
+  destruct (pchain_atail s v cells e' W Hv Hpc (N.to_nat i) ltac:(lia)) as (Hat & Hvt).
+  exists (tail_at v cells (N.to_nat i)), s3.
+  exact (conj L (conj Hat (conj Hvt (conj eq_refl eq_refl)))).
+Qed.
+
+Lemma pchain_tail_pair h v cells e :
+  pchain h v cells e ->
+  forall j a d, nth_error cells j = Some (a, d) -> heap_deref h (tail_at v cells j) = Ok (VPair a d).
+Proof.
+  intros Hc. induction Hc as [v c Hd Hp | v a0 d0 cells e Hd Hc IH]; intros j a d En.
+  - destruct j; discriminate.
+  - destruct j as [|j]; cbn [nth_error] in En.
+    + injection En as -> ->. exact Hd.
+    + assert (Hj : (j < length cells)%nat) by (apply nth_error_Some; congruence).
+      rewrite tail_at_cons by lia. now apply IH.
+Qed.
+
+Lemma pchain_tail_end h v cells e :
+  pchain h v cells e ->
+  exists c, heap_deref h (tail_at v cells (length cells)) = Ok c /\ is_pair c = false.
+Proof.
+  intros Hc. induction Hc as [v c Hd Hp | v a0 d0 cells e Hd Hc IH].
+  - exists c. cbn [length tail_at]. auto.
+  - cbn [length]. rewrite tail_at_cons by lia. exact IH.
+Qed.
+
+Theorem list_ref_refines fuel s v k xs e :
+  values_are_refs s -> val_ok s v -> val_ok s k -> called_with s [v; k] ->
+  achain (abs s) (absv s v) xs e -> (length xs + 1 < fuel)%nat ->
+  match aindex (absv s k) with
+  | Some i =>
+      match nth_error xs (N.to_nat i) with
+      | Some x => exists r s', list_ref fuel s = ROk r s' /\ absv s r = x /\ val_ok s r /\
+                               hp s' = hp s /\ st s' = st s
+      | None => render_fail (list_ref fuel s)              (* index out of range *)
+      end
+  | None => exists s', list_ref fuel s = RErr E_OTHER [] s'
+  end.
+Proof.
+  intros W Hv Hk H Hch Hfuel. unfold called_with in H. cbn [len length rev app N.of_nat Pos.of_succ_nat] in H.
+  set (s1 := with_sp s (sp s - 1)).
+  set (s2 := with_sp s1 (sp s1 - 1)).
+  set (s3 := with_sp s2 (sp s2 - 1)).
+  pose proof (stack_top_tail _ _ _ _ H) as H1.
+  pose proof (stack_top_tail _ _ _ _ H1) as H2.
+  pose proof (pop_index_spec s1 k _ Hk H1) as Pk. change (absv s1 k) with (absv s k) in Pk. fold s2 in Pk.
+  destruct (val_deref s v Hv) as (c & Hc & _ & _).
+  destruct (aindex (absv s k)) as [i|] eqn:Ei.
+  2: { exists s2. unfold list_ref. pop_argc_tac H s 2 2 (Some 2). fold s1. now rewrite (bind_err _ _ _ _ _ _ Pk). }
+  assert (Hrun : list_ref fuel s =
+     if negb (is_listy (absv s v)) then fail_cell fuel c s3
+     else (dom tail <- get_list_tail fuel v i; dom tv <- hderef tail;
+           match tv with VPair a _ => ret (VPtr a) | _ => fail_cell fuel c end) s3).
+  { unfold list_ref. pop_argc_tac H s 2 2 (Some 2). fold s1.
+    rewrite (bind_ok _ _ _ _ _ Pk).
+    rewrite (bind_ok _ _ _ _ _ (pop_raw_top s2 v _ H2)). fold s3.
+    unfold bindM at 1. rewrite hderef_eq. change (hp s3) with (hp s). rewrite Hc. unfold lift.
+    rewrite (listy_deref s v c Hv Hc). destruct (negb (is_listy (absv s v))); reflexivity. }
+  rewrite Hrun.
+  destruct (achain_pchain s W _ _ _ Hch v Hv eq_refl) as (cells & e' & Hpc & Hm & He & Hve).
+  assert (Hlen : length cells = length xs) by (rewrite <- Hm; now rewrite map_length).
+  destruct (is_listy (absv s v)) eqn:El; cbn [negb].
+  2: { assert (Hx : xs = []).
+       { inversion Hch; subst; [reflexivity|]. rewrite <- H0 in El. discriminate. }
+       rewrite Hx. destruct (N.to_nat i); cbn [nth_error]; apply fail_cell_render_fail. }
+  assert (Hpc3 : pchain (hp s3) v cells e') by exact Hpc.
+  pose proof (get_list_tail_loop_spec fuel s3 v v cells e' Hpc3 fuel i ltac:(lia)) as L.
+  rewrite Hlen in L. unfold get_list_tail.
+  destruct (nth_error xs (N.to_nat i)) as [x|] eqn:En.
+  - assert (Hlt : (N.to_nat i < length xs)%nat) by (apply nth_error_Some; congruence).
+    assert (Ec : (i <=? N.of_nat (length xs)) = true) by (apply N.leb_le; lia).
+    rewrite Ec in L. rewrite (bind_ok _ _ _ _ _ L).
+    (* the tail at i is a pair: its car is the i-th element *)
+    rewrite <- Hm in En. rewrite nth_error_map in En.
+    destruct (nth_error cells (N.to_nat i)) as [[a d]|] eqn:Enc; cbn [option_map fst] in En; [|discriminate].
+    injection En as <-.
+    pose proof (pchain_tail_pair _ _ _ _ Hpc _ _ _ Enc) as Hdt.
+    unfold bindM at 1. rewrite hderef_eq. change (hp s3) with (hp s). rewrite Hdt. unfold lift, ret.
+    destruct (pchain_cells_ok s v cells e' W Hv Hpc) as (Hf & _).
+    rewrite Forall_forall in Hf. destruct (Hf (a, d) (nth_error_In _ _ Enc)) as (Ta & _).
+    exists (VPtr a), s3. exact (conj eq_refl (conj eq_refl (conj Ta (conj eq_refl eq_refl)))).
+  - assert (Hge : (length xs <= N.to_nat i)%nat) by (now apply nth_error_None).
+    destruct (i <=? N.of_nat (length xs)) eqn:Ec.
+    + (* i = length: the tail is the end of the chain, not a pair *)
+      apply N.leb_le in Ec. rewrite (bind_ok _ _ _ _ _ L).
+      assert (Ei2 : N.to_nat i = length cells) by lia.
+      assert (Hdt : exists c2, heap_deref (hp s) (tail_at v cells (N.to_nat i)) = Ok c2 /\ is_pair c2 = false).
+      { rewrite Ei2. eapply pchain_tail_end; eauto. }
+      destruct Hdt as (c2 & Hd2 & Hp2).
+      unfold bindM at 1. rewrite hderef_eq. change (hp s3) with (hp s). rewrite Hd2. unfold lift.
+      destruct c2; try discriminate Hp2; apply fail_cell_render_fail.
+    + unfold bindM at 1.
+      destruct (get_list_tail_loop fuel fuel v v i s3); cbn in *; auto; contradiction.
+Qed.
